@@ -181,13 +181,31 @@ def f_semiring(a):
         return e
     x = conc(tp, a["a"], a.get("fresh", True))
     e["a"] = a["a"]
+    consts = (absr(tp, cls.zero), absr(tp, cls.one))
     if fn == "star":
         r = cls.star(x)
     else:
         y = conc(tp, a["b"], a.get("fresh2", True))
         e["b"] = a["b"]
-        r = x + y if fn == "add" else x * y
+        if fn in ("iadd", "imul"):
+            # the in-place forms that accumulators use (`total += w`, `W *= v`): same value, and neither the operands
+            # nor the shared zero / one constants may be changed by them
+            xb, yb = absr(tp, x), absr(tp, y)
+            r = x
+            if fn == "iadd":
+                r += y
+            else:
+                r *= y
+            e["fn"] = "add" if fn == "iadd" else "mul"
+            if absr(tp, y) != yb or (r is not x and absr(tp, x) != xb) or (absr(tp, cls.zero), absr(tp, cls.one)) != consts:
+                raise AssertionError("an in-place operator changed an operand or a shared constant")
+            if not a.get("fresh", True) and (absr(tp, cls.zero), absr(tp, cls.one)) != consts:
+                raise AssertionError("a shared constant was changed")
+        else:
+            r = x + y if fn == "add" else x * y
     e["res"] = absr(tp, r)
+    if (absr(tp, cls.zero), absr(tp, cls.one)) != consts:
+        raise AssertionError("the operation changed the semiring's zero or one")
     return e
 
 
